@@ -4,6 +4,7 @@
 Require Import Pearl.Base.Prelude Pearl.Storage.Model Pearl.Storage.Spec Pearl.Storage.Inv Pearl.Storage.Theorems
                Pearl.Storage.Fault Pearl.Storage.FaultProofs.
 
+Require Pearl.Generated.Facts.
 (* a failed record append is contained after every history: log and reads untouched
    (Blob::write returns before the index is touched) *)
 Theorem C11_append_failure_contained :
@@ -80,6 +81,22 @@ Theorem C11_rotation_failure_keeps_going :
   get_latest_entry (fst (step_q 4 f_cfg s (OWrite 3 7 None 8 5 3))) 3 None = Found (mk_rec 3 7 false None 8 5 3).
 Proof. exact rotation_failure_keeps_going. Qed.
 
+(* ---- structural facts re-extracted from the Rust source on every run (tools/extract_src.py, Generated/Facts.v):
+   the orderings inside the code that the models used above assume. A change of the code that invalidates one turns
+   the generated boolean into `false` and this file no longer compiles. ---- *)
+(* Storage/Fault.v close_active_fsync_fails = identity *)
+Theorem C11_source_close_syncs_before_take : Pearl.Generated.Facts.CLOSE_SYNCS_BEFORE_TAKE = true.
+Proof. reflexivity. Qed.
+(* Storage/Fault.v dump_fails = identity *)
+Theorem C11_source_dump_puts_headers_back : Pearl.Generated.Facts.DUMP_PUTS_HEADERS_BACK = true.
+Proof. reflexivity. Qed.
+(* Storage/Fault.v rotation_create_fails keeps the worker alive *)
+Theorem C11_source_background_failures_logged : Pearl.Generated.Facts.BACKGROUND_FAILURES_ARE_LOGGED = true.
+Proof. reflexivity. Qed.
+(* Storage/Fault.v append_fails = identity also for the size counter *)
+Theorem C11_source_append_resyncs_size : Pearl.Generated.Facts.APPEND_RESERVES_THEN_WRITES = true.
+Proof. reflexivity. Qed.
+
 Print Assumptions C11_append_failure_contained.
 Print Assumptions C11_dump_failure_keeps_log.
 Print Assumptions C11_dump_failure_contained.
@@ -90,3 +107,7 @@ Print Assumptions C11_close_fsync_failure_keeps_blob.
 Print Assumptions C11_rotation_failure_contained.
 Print Assumptions C11_rotation_failure_keeps_invariant.
 Print Assumptions C11_rotation_failure_keeps_going.
+Print Assumptions C11_source_close_syncs_before_take.
+Print Assumptions C11_source_dump_puts_headers_back.
+Print Assumptions C11_source_background_failures_logged.
+Print Assumptions C11_source_append_resyncs_size.
